@@ -114,7 +114,7 @@ def _write_cases(path, cases):
             f.write(b"\n")
 
 
-def _run_chunk(exe, cases, repeat, items, timeout, env=None):
+def _run_chunk(exe, cases, repeat, items, timeout, env=None, pre_args=()):
     """Run one runner process over cases; survive crashes/hangs by restarting after the culprit."""
     results = {}
     pending = list(cases)
@@ -122,7 +122,9 @@ def _run_chunk(exe, cases, repeat, items, timeout, env=None):
         fd, path = tempfile.mkstemp(prefix="inproc_", suffix=".in", dir=os.path.join(WORK, "tmp"))
         os.close(fd)
         _write_cases(path, pending)
-        cmd = [exe, path, "--repeat", str(repeat)]
+        # (arguments the runner does not know are taken for the input path, the last one wins: `pre_args` — the command line
+        # of a compiler, say — go in front of it)
+        cmd = [exe] + list(pre_args) + [path, "--repeat", str(repeat)]
         if not items:
             cmd.append("--no-items")
         rc, out, err, wall = run(cmd, timeout=timeout, env=env)
